@@ -1,3 +1,4 @@
+CONSTANT Variant = "asbuilt"
 SPECIFICATION TraceSpec
 POSTCONDITION TraceAccepted
 CHECK_DEADLOCK FALSE
